@@ -107,9 +107,9 @@ CLAIMED["C13"] = dict(
    note=_ENG_NOTE, technique="contract-based deductive verification (loop invariant, callee contracts, look-up postcondition) with a bounded exhaustive stand-in", design_ref="6/C13")
 CLAIMED["C08"] = dict(
    category="other",
-   text="NoteData.from_notes (three nested itertools.groupby loops, a reduce over gcd and closures writing to a StringIO) could not be brought under loop invariants in this session; it is decided by a bounded stand-in against the statement (decode(encode(notes)) == notes, requested column count, 4 x lcm rows per measure, every measure up to the last note, blank skipped measures/players, canonical stability, one blank measure for the empty stream) on the empty stream, all 1- and 2-note streams of a small grid and generated sorted streams with mixed denominators, players with gaps and keysounds. What is proved deductively is the arithmetic the canonical form rests on (integer row index, row decodes to the same beat, row range). Labelled bounded; level 'other'.",
-   note="Trusted: gcd/reduce compute the lcm, the decoder (C07), VC generator, z3/cvc5 for the lemmas. The bounded stand-in is never counted as proved.",
-   technique="bounded exhaustive/generated stand-in for from_notes (stated bound) plus SMT lemmas for the row arithmetic", design_ref="6/C08")
+   text="NoteData.from_notes (three nested itertools.groupby loops, a reduce over gcd and closures writing to a StringIO) could not be brought under loop invariants in this session; it is decided by a bounded stand-in against the statement (decode(encode(notes)) == notes, requested column count, 4 x lcm rows per measure, every measure up to the last note, blank skipped measures/players, canonical stability, one blank measure for the empty stream) on the empty stream, all 1- and 2-note streams of a small grid and generated sorted streams with mixed denominators, players with gaps and keysounds. What is proved deductively, on the real AST of from_notes re-read on every run: the step folded over a measure's denominators returns a positive common multiple of accumulator and denominator (fold from 1), and the three groupby keys are the player, floor(beat / 4) and the integer (beat mod 4) x q - exact under int(), within 0..4q-1, decoding by the C07 formula to the note's own beat; plus the same arithmetic as stand-alone lemmas. The emission structure (rows, separators, blank measures and players) is bounded only. Level 'other'.",
+   note="Trusted: math.gcd returns a positive common divisor (assumed contract; 'greatest' not assumed), reduce/groupby semantics (T-STD; the induction from the step lemma to 'q is a multiple of every denominator' is argued), the decoder (C07, re-run as supplier units), VC generator, z3/cvc5. The bounded stand-in is never counted as proved.",
+   technique="contract-based deductive verification of the pure pieces of from_notes (fold step and grouping keys, symbolic execution of the real AST + SMT) with a bounded exhaustive/generated stand-in for the emission structure (stated bound)", design_ref="6/C08")
 NA_REASON = "not yet brought under contract in this session (work in progress; see DESIGN.md section 6 for the plan)"
 
 NA_TABLE = {}
